@@ -338,7 +338,7 @@ def ref_sub_seed(seed, index, high=2 ** 31):
 PRIOR_FAMILIES = ['uniform', 'norm', 'expon', 'beta']
 
 
-def gen_prior(tape, name, earlier):
+def gen_prior(tape, name, earlier, positive=()):
     fam = tape.choice('prior_family', PRIOR_FAMILIES)
     hier = bool(earlier) and fam in ('uniform', 'norm', 'expon') and tape.chance('hier', 1, 3)
     if fam == 'uniform':
@@ -353,6 +353,10 @@ def gen_prior(tape, name, earlier):
         args = [tape.int('b_a', 1, 4) * 0.5 + 0.5, tape.int('b_b', 1, 4) * 0.5 + 0.5]
     if hier:
         args[0] = tape.choice('hier_parent', earlier)
+    elif positive and fam in ('uniform', 'norm', 'expon') and tape.chance('hier_scale', 1, 3):
+        # the SCALE argument is a parent whose support is positive (e.g. t2 ~ U(a, t1)): outside
+        # the parent's support scipy's child density is nan, not -inf
+        args[1] = tape.choice('hier_scale_parent', positive)
     return {'name': name, 'kind': 'prior', 'dist': fam, 'args': args,
             'rec': tape.chance('recdist', 1, 2)}
 
@@ -363,12 +367,19 @@ def gen_inference_spec(tape, disc_kinds=('disc', 'dist'), max_priors=3, extra_sh
     nodes = []
     n_pri = tape.int('n_priors', 1, max_priors)
     pnames = []
+    positive = []
     for i in range(n_pri):
-        p = gen_prior(tape, 't%d' % i, pnames)
+        p = gen_prior(tape, 't%d' % i, pnames, positive)
         if all_rec:
             p['rec'] = True
         nodes.append(p)
         pnames.append(p['name'])
+        a = p['args']
+        if all(not isinstance(x, str) for x in a) and (
+                (p['dist'] == 'uniform' and a[0] > 0) or (p['dist'] == 'expon' and a[0] > 0)
+                or p['dist'] == 'beta'):
+            # strictly positive support with a margin (uniform/expon start above 0; beta in (0,1))
+            positive.append(p['name'])
     if smooth is None:
         smooth = tape.chance('smooth', 1, 2)
     mode = 'smooth' if smooth else 'mix'
